@@ -45,6 +45,9 @@ pub mod de {
         // just after the opening quote)
         fn deserialize_mapkey<R: Reader<'de>>(self, d: &mut Deserializer<R>) -> (r: Result<Option<Self::Value>>)
             requires old(d).parser.pinv(), self.start_ok(old(d).parser.read.data(), old(d).parser.read.idx() as int),
+                // MapKey::after_quote (unit `typed_num`): enum / bytes keys step back onto the opening quote
+                old(d).parser.read.idx() >= 1, old(d).parser.read.data()[old(d).parser.read.idx() - 1] == 0x22,
+                old(d).parser.nospace_start == -128 || old(d).parser.nospace_start <= old(d).parser.read.idx() - 1,
             ensures final(d).parser.pinv(), final(d).parser.same_doc(&old(d).parser), r.is_ok() ==> r.unwrap().is_some(),
                 r.is_err() ==> self.fails_at(old(d).parser.read.data(), old(d).parser.read.idx() as int);
     }
